@@ -87,6 +87,8 @@ class Sim:
         # optional fine-grained mode: a predicate on code objects; every source line executed inside a matching
         # function is a scheduling point (finds races between plain statements, where no primitive is involved)
         self.line_points = None
+        self.time_jitter = 0.0            # probability per scheduling decision that time passes (see _time_passes)
+        self.time_jitter_horizon = 1.0    # only deadlines at most this far ahead are jumped to
         self.prio = {}
         self.change_points = {self.rng.randrange(1, 400) for _ in range(2)} if policy == "pct" else set()
 
@@ -193,15 +195,32 @@ class Sim:
                     out.append(t)
         return out
 
+    def _time_passes(self):
+        """Real time does not wait for quiescence: with a small probability (or when the replayed schedule says so) the
+        clock jumps to the earliest deadline of a blocked thread although other threads are runnable, so that a timer
+        or a timed wait can fire in the middle of somebody else's critical sequence.  Recorded in `decisions` as a
+        negative entry -(points+1) so that a replay jumps at the same step."""
+        if self.sched_pos < len(self.schedule) and self.schedule[self.sched_pos] < 0:
+            if self.points < -self.schedule[self.sched_pos] - 1:
+                return
+            self.sched_pos += 1
+        elif self.sched_pos < len(self.schedule) or not self.time_jitter or self.rng.random() >= self.time_jitter:
+            return
+        dl = [t.deadline for t in self.threads if not t.done and t.started and t.pred is not None and t.deadline is not None and t.deadline > self.clock]
+        if dl and min(dl) - self.clock <= self.time_jitter_horizon:
+            self.clock = min(dl)
+            self.decisions.append(-(self.points + 1))
+
     def _pick(self, me):
         while True:
             if self.aborted:
                 return None
+            self._time_passes()
             run = self._runnable()
             if run:
                 if len(run) == 1:
                     return run[0]
-                if self.sched_pos < len(self.schedule):
+                if self.sched_pos < len(self.schedule) and self.schedule[self.sched_pos] >= 0:
                     k = self.schedule[self.sched_pos] % len(run)
                     self.sched_pos += 1
                 elif self.policy == "random":
